@@ -31,6 +31,9 @@ pub mod ext {
     #[verifier::external_type_specification] #[verifier::external_body]
     pub struct ExInstant(std::time::Instant);
 
+    #[verifier::external_type_specification]
+    pub struct ExErrorKind(std::io::ErrorKind);
+    pub assume_specification [std::io::Error::kind] (e: &std::io::Error) -> (r: std::io::ErrorKind);
     /// stand-in for `Box<dyn std::error::Error + Sync + Send>` (rule R5: Verus rejects dyn with several traits)
     #[verifier::external_body]
     #[derive(Debug)]
